@@ -464,6 +464,37 @@ def oracle_bigcatchup(case):
     return None
 
 
+def etcd_cancel_once_case(seed, i, engine):
+    """a client cancels a running watch while writes go on: the watch is answered with exactly ONE `canceled` response and
+    nothing names it afterwards (etcd's contract, which clientv3 - kube-apiserver, a follower's proxy - relies on: a second
+    `canceled`, or an event after it, closes a closed channel in the client process)"""
+    from . import c16
+    r = rng_for(seed, "c05cancel/%d" % i)
+    lines = [c16.cfg_line(engine), c16.render_txn(c16.t_create(c16.PREFIX + b"/c0", b"v")), "rev",
+             "watch w1 %s - %d" % (hx(c16.PREFIX + b"/"), c16.INIT + 1)]
+    n = 0
+    for _ in range(r.randint(1, 4)):
+        n += 1
+        lines += [c16.render_txn(c16.t_create(c16.PREFIX + b"/c%d" % n, b"v")), "rev"]
+    lines += ["wevents w1", "wcancel w1"]
+    for _ in range(r.randint(1, 3)):
+        n += 1
+        lines += [c16.render_txn(c16.t_create(c16.PREFIX + b"/c%d" % n, b"v")), "rev"]
+    lines += ["wcanceled w1", "wevents w1", "wcanceled w1"]
+    return c16.EtcdCase("etcd", lines, {"kind": "etcd-cancel", "engine": engine})
+
+
+def oracle_cancel_once(case):
+    for i, (line, out) in enumerate(zip(case.lines, case.impl)):
+        o = out.split()
+        if line.startswith("wcanceled") and len(o) == 4:
+            n, extra = int(o[2][2:]), int(o[3][6:])
+            if n > 1 or extra > 0:
+                return ("line %d: a cancelled watch was answered with %d `canceled` responses and %d response(s) naming it after the "
+                        "first: %s" % (i + 1, n, extra, out), "watch-cancel-answered-twice")
+    return None
+
+
 def oracle_created(case):
     n = case.meta["n"]
     for i, (line, out) in enumerate(zip(case.lines, case.impl)):
@@ -502,6 +533,8 @@ def build_cases(tier, seed):
         cases.append(gen_prefix(seed, j, CACHES[j % len(CACHES)]))
     for j in range(3 if tier == "quick" else 60):
         cases.append(etcd_created_case(seed, j, ["memkv", "badger", "tikv"][j % 3]))
+    for j in range(3 if tier == "quick" else 60):
+        cases.append(etcd_cancel_once_case(seed, j, ["memkv", "badger", "tikv"][j % 3]))
     cases.append(big_catchup_case(30001))
     if tier != "quick":
         cases += [big_catchup_case(n) for n in (30000, 30099, 35017)]
@@ -537,7 +570,7 @@ def check(rep, tier, seed):
                 outcomes["streams_closed"] += o[3] == "closed=1"
             elif len(o) == 3 and o[0] == "await" and o[2] == "1":
                 outcomes["parked_registrations" if o[1].startswith("watch.") else "parked_sequencer"] += 1
-        hit = (oracle_ring(c) if k == "ring" else oracle_created(c) if k == "etcd-created" else
+        hit = (oracle_ring(c) if k == "ring" else oracle_created(c) if k == "etcd-created" else oracle_cancel_once(c) if k == "etcd-cancel" else
                oracle_bigcatchup(c) if k == "bigcatchup" else oracle_watch(c))
         if hit:
             if core.handle_oracle_hit(rep, "C05", hit[1], c, hit[0], hit[1]):
